@@ -29,8 +29,11 @@ FAULTS = ("http_500", "http_412_key", "http_404", "timeout_open", "timeout_body"
 
 # ----------------------------------------------------------------------------- the simulated server
 class _Hdr:
+    def __init__(self, enc=None):
+        self._enc = enc
+
     def get(self, name, default=None):
-        return default
+        return self._enc if (name == "Content-Encoding" and self._enc) else default
 
     def get_charsets(self):
         return ["utf-8"]
@@ -47,14 +50,16 @@ class OResponse:
     """Response of the simulated server.  read(size) delivers the body in the pieces the plan prescribes (one piece = in reality one
     10 MB chunk) and fails after the planned piece."""
 
-    def __init__(self, server, caller, body, pieces, fail_after, fail_kind):
+    def __init__(self, server, caller, body, pieces, fail_after, fail_kind, enc=None):
         self.server, self.caller = server, caller
-        self.headers = _Hdr()
+        self.headers = _Hdr(enc)
         self._parts = pieces
         self._fail_after, self._fail_kind = fail_after, fail_kind
         self._n = 0
         self._rest = body[sum(map(len, pieces)):]
-        self.length = len(body)          # like http.client.HTTPResponse: the bytes of a Content-Length body that are still to come
+        # like http.client.HTTPResponse: the bytes of a Content-Length body that are still to come; None for a body that is delimited
+        # by the server closing the connection (then nothing but the content itself can tell that it is incomplete)
+        self.length = None if enc else len(body)
 
     def info(self):
         return self.headers
@@ -83,7 +88,8 @@ class OResponse:
         if self._n >= len(self._parts):
             return b""
         self._n += 1
-        self.length -= len(self._parts[self._n - 1])
+        if self.length is not None:
+            self.length -= len(self._parts[self._n - 1])
         return self._parts[self._n - 1]
 
     def __enter__(self):
@@ -98,7 +104,8 @@ class OServer:
     def __init__(self):
         self.reset({}, {}, {})
 
-    def reset(self, routes, plan, callers):
+    def reset(self, routes, plan, callers, gz=False):
+        self.gz = gz
         self.routes = routes            # url path -> body text
         self.plan = plan                # "caller:ordinal" -> fault kind
         self.callers = callers          # task id -> caller index
@@ -146,21 +153,26 @@ class OServer:
             self.deliver(caller, "http_404")
             raise real.HTTPError(url, 404, "Not Found", _Hdr(), _ErrBody(b"unknown"))
         body = self.routes[path].encode("utf-8")
+        enc = None
+        if self.gz:
+            # the server compresses and does not announce a length: the body ends when it closes the connection
+            import gzip as _gz
+            body, enc = _gz.compress(body, mtime=0), "gzip"
         self.inflight += 1
         self.max_inflight = max(self.max_inflight, self.inflight)
         if fault in ("timeout_body", "reset_body", "interrupt_body", "closed_early", "incomplete_read"):
             # the body arrives in two pieces (cut at a line boundary somewhere inside, if there is one) and the connection fails
             # after the first: in reality a body larger than HttpSource's 10 MB chunk whose second chunk never arrives
             cut = self._cut(body, caller, k)
-            return OResponse(self, caller, body, [body[:cut]] if cut else [], 1 if cut else 0, fault)
+            return OResponse(self, caller, body, [body[:cut]] if cut else [], 1 if cut else 0, fault, enc)
         self.served_ok[path] = self.served_ok.get(path, 0) + 1
         n = len(body)
         pieces = [body] if n < 40 or (k + len(path)) % 3 else [body[:n // 2], body[n // 2:]]
-        return OResponse(self, caller, body, pieces, None, None)
+        return OResponse(self, caller, body, pieces, None, None, enc)
 
     @staticmethod
     def _cut(body, caller, k):
-        nl = [i + 1 for i, b in enumerate(body) if b == 10]
+        nl = [i + 1 for i, b in enumerate(body) if b == 10] if not body.startswith(b"\x1f\x8b") else []
         if len(nl) < 2:
             return len(body) // 2
         # a few bytes past a line boundary, so that complete lines have been handed on and a partial one is held back
@@ -197,7 +209,7 @@ def make_routes(datasets, tasks):
     for d in datasets:
         did = d["id"]
         descr = {"data_set_description": {"id": str(did), "name": f"d{did}", "file_id": str(d["file_id"]), "status": d.get("status", "active"),
-                                          "default_target_attribute": "y"}}
+                                          "default_target_attribute": "y,z" if d.get("multi_target") else "y"}}
         feats = [{"index": str(i), "name": n, "data_type": t, "is_target": "true" if n == "y" else "false",
                   "is_ignore": "true" if n == "junk" else "false", "is_row_identifier": "true" if n == "rid" else "false"}
                  for i, (n, t, _) in enumerate(d["cols"])]
@@ -237,7 +249,9 @@ def gen_dataset(rng, did):
             else:
                 row.append(f"'s {i}'")
         rows.append(row)
-    return {"id": did, "file_id": 9000 + did, "cols": cols, "rows": rows}
+    # some data sets cannot be turned into a labelled table at all (OpenML has data sets with several default targets): every read of
+    # them fails while the ARFF lines are being consumed - the same way for everybody, whatever the cache and the other callers do
+    return {"id": did, "file_id": 9000 + did, "cols": cols, "rows": rows, "multi_target": rng.random() < 0.08}
 
 
 def gen_openml(rng, index):
@@ -247,6 +261,7 @@ def gen_openml(rng, index):
     faulty = index % 2 == 1
     callers = []
     plan = {}
+    p_fault = weighted(rng, [(0.16, 3), (0.45, 1)])        # (a quarter of the faulty runs model a network that is mostly down)
     for c in range(weighted(rng, [(2, 3), (3, 3), (4, 2), (5, 1)])):
         reads = []
         for _ in range(1 + rng.randrange(3)):
@@ -256,11 +271,11 @@ def gen_openml(rng, index):
         callers.append(reads)
         if faulty:
             for k in range(12):
-                if rng.random() < 0.16:
+                if rng.random() < p_fault:
                     plan[f"{c}:{k}"] = weighted(rng, [("http_500", 2), ("http_412_key", 1), ("http_404", 1), ("timeout_open", 2), ("timeout_body", 3),
                                                       ("reset_body", 3), ("interrupt_body", 1), ("closed_early", 3), ("incomplete_read", 2)])
     return {"kind": "openml", "datasets": datasets, "tasks": tasks, "callers": callers, "plan": plan,
-            "backend": weighted(rng, [("disk", 3), ("memory", 1)]), "sem": weighted(rng, [(3, 3), (1, 2), (2, 1)]),
+            "backend": weighted(rng, [("disk", 3), ("memory", 1)]), "gz": rng.random() < 0.3, "sem": weighted(rng, [(3, 3), (1, 2), (2, 1)]),
             "knobs": {"array_yields": rng.random() < 0.5, "disk_yields": rng.random() < 0.6, "p_stay": weighted(rng, [(0.0, 2), (0.5, 2), (0.85, 1)]),
                       "p_clock": weighted(rng, [(0.3, 2), (0.6, 1)])}}
 
@@ -356,7 +371,7 @@ def run_openml(cfg, seed, choices, make_sim, run_sim, install_gzip_shim, sig_fn)
         state["array"], state["sem"] = array, sem
         ccs, tasks = [], []
         callers = {}
-        server.reset(make_routes(cfg["datasets"], cfg["tasks"]), dict(cfg["plan"]), callers)
+        server.reset(make_routes(cfg["datasets"], cfg["tasks"]), dict(cfg["plan"]), callers, gz=cfg.get("gz", False))
         for cidx, reads in enumerate(cfg["callers"]):
             base = DiskCacher(tmpdir) if tmpdir is not None else MemoryCacher()
             cc = ConcurrentCacher(base, array, lock)
@@ -433,7 +448,9 @@ def _oracle(cfg, sim, outcome, ref, records, state):
             want = ref[order[ri]]
         who = f"caller {cidx} read {ri} ({r['src'] if r else 'final reader'})"
         if kind in ("rows", "prefix"):
-            if isinstance(want, tuple):
+            if isinstance(want, tuple) and kind == "prefix" and not payload:
+                pass       # (a reader that never asked for a row never got to the point where every read of this data set fails)
+            elif isinstance(want, tuple):
                 out.append(vio("wrong_data", f"openml: {who} returned {len(payload)} rows although a plain read raises {want[1]}", key="openml:wrong_data"))
             elif kind == "rows" and payload != want:
                 out.append(vio("wrong_data", f"openml: {who} returned {len(payload)} rows, the dataset has {len(want)}; first difference at row "
@@ -490,6 +507,8 @@ def shrink_openml(cfg):
             c = copy.deepcopy(cfg); c["datasets"][di]["rows"] = d["rows"][:max(2, len(d["rows"]) // 2)]; yield c
     if cfg["sem"] != 3:
         c = copy.deepcopy(cfg); c["sem"] = 3; yield c
+    if cfg.get("gz"):
+        c = copy.deepcopy(cfg); c["gz"] = False; yield c
     if cfg["backend"] != "memory":
         c = copy.deepcopy(cfg); c["backend"] = "memory"; yield c
     for k, v in (("array_yields", False), ("disk_yields", False), ("p_stay", 0.85)):
